@@ -286,7 +286,7 @@ func (lr *liveRun) oracle(id string, in c06in, a *lib.TLAsset, sm *m.MPD, multi 
 	if wantReject {
 		if multi.Status == 200 {
 			lr.fail(id, "reject:accepted", fmt.Sprintf("period duration %d s is not a multiple of the segment duration %d ms but the MPD was produced", P, segDurMS), in)
-		} else if multi.Status != 500 || !strings.Contains(string(multi.Body), "not a multiple of segment duration") {
+		} else if multi.Status != 400 || !strings.Contains(string(multi.Body), "not a multiple of segment duration") {
 			lr.fail(id, fmt.Sprintf("reject:status-%d", multi.Status), "rejection without the expected message: "+string(multi.Body), in)
 		}
 		return
@@ -1121,6 +1121,10 @@ func runSplit(si splitIn) (status int, periods string) {
 	}()
 	err := app.VerifC06SplitPeriodCfg(mpd, si.SegDurMS, si.PPH, si.Mode == "tlt", si.Mode == "tlnr", si.Cont, si.StartTimeS, si.StartNr, si.StartTimeMS, si.NowMS)
 	if err != nil {
+		// the typed error errPeriodDuration is answered with 400 by the handler, any other error with 500
+		if strings.Contains(err.Error(), "not a multiple of segment duration") {
+			return 400, "[]"
+		}
 		return 500, "[]"
 	}
 	return 200, coqPeriods(mpd.Periods)
@@ -1250,10 +1254,10 @@ func oracleSplit(c *lib.Ctx, id string, si splitIn, st int) {
 	}
 	if pphv := *si.PPH; pphv >= 1 && pphv <= 3600 && si.SegDurMS > 0 {
 		notMultiple := (3600/pphv*1000)%si.SegDurMS != 0
-		if notMultiple && st != 500 {
+		if notMultiple && st != 400 {
 			c.Fail(id, "reject:accepted", fmt.Sprintf("splitPeriod: period duration %d s is not a multiple of the segment duration %d ms but the result is %d", 3600/pphv, si.SegDurMS, st), c06in{Kind: "split", Split: &si})
 		}
-		if !notMultiple && st == 500 {
+		if !notMultiple && st == 400 {
 			c.Fail(id, "reject:rejected", fmt.Sprintf("splitPeriod: period duration %d s is a multiple of the segment duration %d ms but was rejected", 3600/pphv, si.SegDurMS), c06in{Kind: "split", Split: &si})
 		}
 	}
